@@ -465,24 +465,38 @@ class SubResponseA(falcon.asgi.Response):
 CLASSES = {'stock': (JSONHandler, URLEncodedFormHandler), 'sub': (SubJSONHandler, SubFormHandler),
            'override': (EnvelopeJSONHandler, MultiDictFormHandler)}
 TYPES = ('stock', 'sub')       # request_type / response_type of the app: framework classes or plain subclasses
-CFG = [None]        # active configuration: None (framework defaults) or (dumps, loads, handler class, types) names
+# documented options of URLEncodedFormHandler
+FORM_OPTS = {'default': {}, 'csv': {'csv': True}, 'noblank': {'keep_blank': False},
+             'csv-noblank': {'csv': True, 'keep_blank': False}}
+CFG = [None]        # active configuration: None (framework defaults) or
+#                     (dumps, loads, handler class, request/response types, form options) names
+
+
+def form_opt():
+    return CFG[0][4] if CFG[0] else 'default'
+
+
+def form_cfgs():
+    """Form-handler option matrix (JSON side at its defaults)."""
+    out = [('default', 'default', c, 'stock', fo) for fo in FORM_OPTS for c in ('stock', 'sub')]
+    out += [('default', 'default', 'stock', 'sub', fo) for fo in FORM_OPTS]
+    return [c for c in out if c[4] != 'default']       # the default options are covered by all_cfgs()
 
 
 def all_cfgs():
     """Configurations under which the plain document contract holds unchanged."""
-    return [(d, l, c, t) for t in TYPES for c in ('stock', 'sub') for d in DUMPS for l in LOADS]
+    return [(d, l, c, t, 'default') for t in TYPES for c in ('stock', 'sub') for d in DUMPS for l in LOADS]
 
 
 def override_cfgs():
     """Handlers whose overridden public methods change the wire format / the shape of the parsed form."""
-    return [(d, 'default', 'override', t) for t in TYPES for d in ('default', 'bytes')]
+    return [(d, 'default', 'override', t, 'default') for t in TYPES for d in ('default', 'bytes')]
 
 
 def set_cfg(cfg):
     if cfg:
         cfg = tuple(cfg)
-        if len(cfg) == 3:
-            cfg += ('stock',)
+        cfg += ('default', 'default', 'stock', 'stock', 'default')[len(cfg):]
     CFG[0] = cfg or None
 
 
@@ -516,7 +530,7 @@ def apps():
                     # the same configuration for the default JSON type and for the vendor +json type
                     opts.media_handlers[JSON] = jcls(dumps=DUMPS[key[0]], loads=LOADS[key[1]])
                     opts.media_handlers[VND] = jcls(dumps=DUMPS[key[0]], loads=LOADS[key[1]])
-                    opts.media_handlers[FORM] = fcls()
+                    opts.media_handlers[FORM] = fcls(**FORM_OPTS[key[4]])
             app.req_options.media_handlers[FAULTY_SYNC] = FaultySyncHandler()
             app.req_options.media_handlers[FAULTY_ASYNC] = FaultyAsyncHandler()
         w.add_route('/doc', DocW())
@@ -653,7 +667,7 @@ def expected(kind, body):
     fixed bodies, which are judged many times)."""
     if len(body) <= 4096:
         return _expected(kind, body)
-    key = (kind, h64(body), len(body))
+    key = (kind, h64(body), len(body), form_opt())
     if key not in _EXPECTED_CACHE:
         _EXPECTED_CACHE[key] = _expected(kind, body)
     return _EXPECTED_CACHE[key]
@@ -665,6 +679,11 @@ def _expected(kind, body):
         st, val, flags = M.ref_form_parse(body)
         if st == 'bad':
             return 'malformed', None, flags
+        opt = form_opt()
+        if 'csv' in opt and b',' in body:
+            flags.add('literal-comma-with-csv')         # csv=True documents a different reading of literal commas
+        if 'noblank' in opt and any(v == '' or (isinstance(v, list) and '' in v) for v in val.values()):
+            flags.add('blank-value-with-keep_blank-off')   # keep_blank=False documents that blanks are dropped
         if flags:
             # inputs on which form readers legitimately differ: a mapping or a malformed error
             return 'value_or_malformed', (lambda v: isinstance(v, dict)), flags
@@ -682,6 +701,37 @@ def _expected(kind, body):
     if st2 == 'ok':
         return 'value_or_malformed', None, info2     # NaN / Infinity tokens, leading BOM
     return 'malformed', None, info
+
+
+SCRIBBLE = 'scribbled by the application after use'
+
+
+def scribble(obj, seen=None):
+    """What applications do with their own request data: mutate it in place (pop keys, add flags, append).
+    Deep, so that no part of the object can be mistaken for the original any more."""
+    seen = set() if seen is None else seen
+    if id(obj) in seen:
+        return
+    seen.add(id(obj))
+    if isinstance(obj, dict):
+        for v in list(obj.values()):
+            scribble(v, seen)
+        obj.clear()
+        obj[SCRIBBLE] = SCRIBBLE
+    elif isinstance(obj, list):
+        for v in obj:
+            scribble(v, seen)
+        del obj[:]
+        obj.append(SCRIBBLE)
+
+
+def scribble_log(rec, log):
+    """Mutate every media object this request returned (not the caller's own defaults). A later request with a
+    byte-identical body must still get a document equal to what was sent."""
+    for op, default, k, payload, _ in log:
+        if k == 'ret' and isinstance(payload, (dict, list)) and payload is not default and payload is not DEF1:
+            scribble(payload)
+            rec.count('mon.media_mutated_after_use')
 
 
 def status_of(exc):
@@ -808,6 +858,7 @@ def run_request(rec, stack, kind, ct, ct_class, body, history, propagate, chunks
         history = [c for c in history if c not in 'XT']
         rec.count('mon.retry_after_interruption')
     ok = judge(rec, wit, kind, ct_class, body, history, propagate, log, status, problems)
+    scribble_log(rec, log)
     rec.count('req.' + stack)
     if stack == 'a':
         n = len(chunks) if chunks else 1
@@ -1203,6 +1254,7 @@ def roundtrip(rec, kind, doc, ct, rng, stacks_ser='wa', stacks_de='wa', tag='rt'
                                                       else label),
                                       dict(wit, detail=complaint, body=body[:300], log=describe(log)))
                         fired = True
+            scribble_log(rec, log)
             if fired:
                 break
     rec.case((CFG[0], kind, doc_hex, ct, tag, pre))
@@ -1289,6 +1341,7 @@ def run_faulty(rec, stack, ct, body, history, fault, chunks=None, with_cl=True, 
                 fire('handler-invoked-again', 'call #%d invoked the media handler %d more time(s)' % (i + 1, hdelta[i]))
     if status != 200:
         fire('wire-status', 'responder completed but status is %r' % status)
+    scribble_log(rec, log)
     if fault.get('hplan', {}).get('succeed_second'):
         rec.count('mon.faulty.succeed_second')
     if kind == 'handler':
@@ -1412,6 +1465,88 @@ def phase_handler_config(rec):
         set_cfg(None)
 
 
+FORM_VALUES = ['', 'x', 'a,b', ',', ',,', 'a,', ',a', '%2C', 'a b', '\xe9,\u4e2d', 'a%2Cb', '+,&=']
+
+
+def form_option_docs():
+    """Single values, every ordered pair and a sample of triples over values rich in commas/blanks/escapes,
+    plus multi-key mappings (commas in first, later and all positions)."""
+    docs = [{'k': v} for v in FORM_VALUES]
+    docs += [{'tags': [a, b]} for a in FORM_VALUES for b in FORM_VALUES]
+    docs += [{'t': [a, b, c]} for a in FORM_VALUES[1:6] for b in FORM_VALUES[:4] for c in FORM_VALUES[2:5]]
+    docs += [{'a,b': ['x', 'y,z'], ',': 'p,q', 'c': ['1,2', '3', '4,5'], 'd': ''},
+             {'k1': ['red', 'green,blue'], 'k2': ['red,green', 'blue'], 'k3': 'single,comma'}]
+    return docs
+
+
+def admissible_form(doc):
+    """The part of a mapping inside the documented round-trip domain of the active form options
+    (keep_blank=False documents that blank values are dropped: such mappings are outside)."""
+    if 'noblank' not in form_opt():
+        return doc
+    out = {}
+    for k, v in doc.items():
+        if isinstance(v, list):
+            v = [x for x in v if x != '']
+            if len(v) >= 2:
+                out[k] = v
+        elif v != '':
+            out[k] = v
+    return out
+
+
+def phase_form_options(rec):
+    """URLEncodedFormHandler(keep_blank=, csv=) x stock/subclass x stock/custom request types: round trip of
+    mappings whose values carry commas, blanks and escapes in every position of multi-valued keys, plus the same
+    mappings written by the independent serializer."""
+    idx = 0
+    docs = form_option_docs()
+    try:
+        for cfg in form_cfgs():
+            set_cfg(cfg)
+            for doc in docs:
+                idx += 1
+                if idx % rec.nshards != rec.shard:
+                    continue
+                d = admissible_form(doc)
+                roundtrip(rec, 'form', d, FORM_CTS[idx % 3], None, tag='form-options', pre=idx % 6)
+                alt = M.ref_form_dump(d)
+                stack = 'wa'[idx // 2 % 2]
+                run_request(rec, stack, 'form', FORM, 'designated', alt, ['G', 'M'], False,
+                            [3] * -(-len(alt) // 3) if (stack == 'a' and alt) else None, with_cl=idx % 2 == 0,
+                            tag='form-options')
+                rec.count('phase.form_options')
+                rec.count('formopt.' + cfg[4])
+                if any(isinstance(v, list) and any(',' in x for x in v[1:]) for v in d.values()):
+                    rec.count('formopt.comma_in_later_value.' + cfg[4])
+            rec.seen('handler_configs', cfg)
+    finally:
+        set_cfg(None)
+
+
+def phase_repeated_bodies(rec):
+    """Byte-identical bodies in consecutive requests (same and different stacks, apps and configurations); the
+    application mutates every media object after use, so shared state between requests shows up as a wrong
+    document in the later request. Driven past typical cache sizes (300 distinct bodies, then all again)."""
+    idx = 0
+    bodies = [('form', FORM, b'csrf=%d&tags=a&tags=b%%2Cc&note=' % i) for i in range(300)]
+    bodies += [('json', JSON, b'{"id": %d, "tags": ["a", {"b": [1]}]}' % i) for i in range(300)]
+    try:
+        for rnd in range(2):
+            for kind, ct, body in bodies:
+                idx += 1
+                if idx % rec.nshards != rec.shard:
+                    continue
+                for cfg in (None, ('default', 'default', 'sub', 'sub', 'default')):
+                    set_cfg(cfg)
+                    for stack in 'wa':
+                        run_request(rec, stack, kind, ct, 'designated', body, ['G', 'M'], False,
+                                    [7] * -(-len(body) // 7) if stack == 'a' else None, tag='repeated')
+                        rec.count('phase.repeated_bodies')
+    finally:
+        set_cfg(None)
+
+
 def phase_interrupted(rec, quick):
     """ASGI: the first access(es) to the media are interrupted (task cancelled / wait_for deadline) while waiting
     for the d-th body event, for every d and every pair d1 < d2, then the media is accessed normally.
@@ -1421,7 +1556,7 @@ def phase_interrupted(rec, quick):
               ('json', VND, b'[1, [2, [3]]]'), ('form', FORM, b'a=%C3%A9&a=1+2')]
     idx = 0
     try:
-        for cfg in (None, ('default', 'default', 'sub', 'sub'), ('bytes', 'str-only', 'stock', 'sub')):
+        for cfg in (None, ('default', 'default', 'sub', 'sub', 'default'), ('bytes', 'str-only', 'stock', 'sub', 'csv')):
             set_cfg(cfg)
             for kind, ct, body in bodies:
                 n = len(body)
@@ -1490,7 +1625,7 @@ def phase_random(rec):
     while rec.budget_ok(0.85) or n < MIN_RANDOM_ROUNDS:
         for _ in range(10):
             n += 1
-            set_cfg(rng.choice(all_cfgs()) if rng.random() < 0.4 else None)
+            set_cfg(rng.choice(all_cfgs() + form_cfgs() * 2) if rng.random() < 0.4 else None)
             rec.count('random.configured' if CFG[0] else 'random.default_handlers')
             # --- JSON round trip through falcon's serializer, all four stack pairs
             doc = gen_top_doc(rng)
@@ -1518,7 +1653,7 @@ def phase_random(rec):
                                 rng.random() < 0.5, rng.randrange(4), tag='mutated')
                     rec.count('mon.mutated_json')
             # --- forms
-            f = gen_form(rng)
+            f = admissible_form(gen_form(rng))
             fct = rng.choice(FORM_CTS)
             fb = roundtrip(rec, 'form', f, fct, rng, tag='random')
             falt = M.ref_form_dump(f, rng)
@@ -1585,6 +1720,8 @@ def run(rec):
     phase_reassign(rec)
     phase_faulty(rec, 3 if quick else 4)
     phase_handler_config(rec)
+    phase_form_options(rec)
+    phase_repeated_bodies(rec)
     phase_interrupted(rec, quick)
     phase_histories(rec, 4 if quick else 5)
     phase_truncations(rec, quick)
@@ -1653,6 +1790,13 @@ def run(rec):
     rec.floor('random.configured', 30)
     for name in TYPES:
         rec.floor('config.types.' + name, 600)
+    rec.floor('phase.form_options', 1500)
+    for name in FORM_OPTS:
+        if name != 'default':
+            rec.floor('formopt.' + name, 500)
+            rec.floor('formopt.comma_in_later_value.' + name, 200)
+    rec.floor('phase.repeated_bodies', 4000)
+    rec.floor('mon.media_mutated_after_use', 20000)
     rec.floor('config.override.json', 80)
     rec.floor('config.override.form', 25)
     rec.floor('mon.render_taken_over', 100)
@@ -1684,6 +1828,8 @@ def replay(rec, w):
         kind = wit.get('kind', 'json')
         raw = bytes.fromhex(wit['doc_hex'])
         doc = M.ref_json_parse(raw)[1] if kind == 'json' else M.ref_form_parse(raw)[1]
+        if kind == 'form' and CFG[0] and CFG[0][2] == 'override':
+            doc = {k: (v if isinstance(v, list) else [v]) for k, v in doc.items()}
         import random
         rng = random.Random(0)
         roundtrip(rec, kind, doc, wit.get('ct'), None, wit.get('ser', 'wa'), wit.get('de', 'wa'), tag='replay',
@@ -1716,10 +1862,13 @@ def replay(rec, w):
         table = dict(hostile_bodies() + form_hostile_bodies())
         body = table[wit['tag'].split(':', 1)[1]]
         CUR_GEN['desc'] = wit['tag'].split(':', 1)[1]
-    ok, log = run_request(rec, wit['stack'], wit['kind'], wit['ct'], wit['ct_class'], body, list(wit['history']),
-                          wit['propagate'], wit['chunks'], wit['with_cl'], wit.get('style', 0),
-                          bytes.fromhex(wit.get('trailing_hex', '')), tag=wit.get('tag', 'replay'),
-                          fault=wit.get('fault'))
+    for _ in range(2):      # twice: the in-run decision may depend on an identical earlier request
+        ok, log = run_request(rec, wit['stack'], wit['kind'], wit['ct'], wit['ct_class'], body, list(wit['history']),
+                              wit['propagate'], wit['chunks'], wit['with_cl'], wit.get('style', 0),
+                              bytes.fromhex(wit.get('trailing_hex', '')), tag=wit.get('tag', 'replay'),
+                              fault=wit.get('fault'))
+        if not ok:
+            break
     print('replayed:', 'no monitor fired' if ok else 'monitor fired', describe(log))
     rec.case(('replay', 1))
     rec.case(('replay', 2))
